@@ -232,7 +232,8 @@ def _gen_handover(rng, seed, index, tier):
     migration-only app already present before the first run (a legacy
     deployment: Django fakes its initial migration)."""
     from evosim.props import c10
-    c = c10.generate(seed, index, tier)
+    # (C10's own dedicated family at index % 25 == 24 has another shape)
+    c = c10.generate(seed, index + 1 if index % 25 == 24 else index, tier)
     P = c['project']
     start = c['start']
     script = []
